@@ -290,14 +290,14 @@ func main() {
 	// the generated operations with index % shards == shard: the generated executor spawns a
 	// goroutine per concurrent field, and cross-thread goroutine hand-offs dominated the run time
 	// when one process used many threads.
-	type plan struct{ n, fullGate, httpMax, histMax, ctxMax, shards int }
+	type plan struct{ n, fullGate, httpMax, histMax, ctxMax, concMax, shards int }
 	cpus := runtime.NumCPU()
-	plans := []plan{{4, 3, 4, 4, 4, max(1, cpus/2)}, {4, 3, 4, 4, 4, max(1, cpus/2)}}
+	plans := []plan{{4, 3, 4, 4, 4, 4, max(1, cpus/2)}, {4, 3, 4, 4, 4, 4, max(1, cpus/2)}}
 	if !quick {
 		// the layouts differ only in the template that emits Complexity() (generated!.gotpl vs
 		// root_.gotpl); every "Type.field" case of the alphabet is already reached at 4 nodes, so
 		// the deeper enumeration is spent on one layout
-		plans = []plan{{5, 4, 5, 5, 5, max(1, cpus-max(1, cpus/8))}, {4, 4, 4, 4, 4, max(1, cpus/8)}}
+		plans = []plan{{5, 4, 5, 5, 5, 5, max(1, cpus-max(1, cpus/8))}, {4, 4, 4, 4, 4, 4, max(1, cpus/8)}}
 	}
 
 	results := make([]*result, len(layouts))
@@ -318,7 +318,7 @@ func main() {
 				go func(sh int) {
 					defer sw.Done()
 					parts[sh] = runHarness(bin, sh, "-layout", l.name, "-tier", c.Tier, "-n", fmt.Sprint(pl.n), "-fullgate", fmt.Sprint(pl.fullGate),
-						"-http", fmt.Sprint(pl.httpMax), "-hist", fmt.Sprint(pl.histMax), "-ctx", fmt.Sprint(pl.ctxMax), "-budget", fmt.Sprint(budget), "-shard", fmt.Sprint(sh), "-shards", fmt.Sprint(pl.shards))
+						"-http", fmt.Sprint(pl.httpMax), "-hist", fmt.Sprint(pl.histMax), "-ctx", fmt.Sprint(pl.ctxMax), "-conc", fmt.Sprint(pl.concMax), "-budget", fmt.Sprint(budget), "-shard", fmt.Sprint(sh), "-shards", fmt.Sprint(pl.shards))
 				}(sh)
 			}
 			sw.Wait()
@@ -367,7 +367,7 @@ func main() {
 		broken("layouts explored different spaces: %d vs %d", results[0].Counts["op_x_assignment"], results[1].Counts["op_x_assignment"])
 	}
 
-	evals := total["calculate_calls"] + total["gate_runs"] + total["http_runs"] + total["history_requests"] + total["ctx_fault_calculate_calls"] + total["ctx_fault_gate_runs"] + total["ctx_fault_http_runs"] + total["safeadd_cells"]
+	evals := total["calculate_calls"] + total["gate_runs"] + total["http_runs"] + total["history_requests"] + total["ctx_fault_calculate_calls"] + total["ctx_fault_gate_runs"] + total["ctx_fault_http_runs"] + total["in_flight_segments"] + total["safeadd_cells"]
 	c.Cov["evaluations"] = evals
 	c.Cov["distinct_nontrivial"] = results[0].Counts["distinct_nontrivial"]
 	c.Cov["rule"] = "distinct (operation, custom-complexity assignment) pairs (per layout; identical in both) whose reference value takes at least one custom function's value or a maximum over implementors with differing costs, i.e. is not the plain node count"
@@ -378,13 +378,16 @@ func main() {
 	c.Cov["safeadd_grid"] = "12x12 = 144 cells over {minInt, minInt+1, -2, -1, 0, 1, 2, maxInt/2, maxInt/2+1, maxInt-2, maxInt-1, maxInt}; both operands >= 0 (64 cells): exact saturating sum from math/big; one negative (64): the other operand; both negative (16): documentation does not define the value, only a non-negative result is required (the code returns 1)"
 	c.Cov["bounds"] = map[string]any{
 		"max_selection_nodes": map[string]int{"single-file": plans[0].n, "follow-schema": plans[1].n},
-		"grammar":             "ordered selection sets over Query{str,z:str,arg[6 argument forms],t,targ[3 argument forms],node,u,rep,__typename,__schema,__type(name:\"T\")} __Schema{__typename,queryType} __Type{name} Rep{old,rows,newFoo,new_foo} Row{id} (Rep.old is bound to the Go field of Rep.rows by @goField(name:) and is declared before it, Rep.new_foo normalises to the Go field of Rep.newFoo: one ComplexityRoot member per pair, assignments are per member and the oracle is asked under every schema name) Mutation{m1,m3} T{id,z:id,name,kid,peer,u,__typename} S{id,peer} Node{id,__typename} Named{name} Deep{peer} U{__typename}; inline fragments without / with type condition in {T,S,Node,Named,Deep,U} (where the types overlap); named fragment definition+spread on the same conditions and on Query; re-use of any fragment of the document; argument forms of Query.arg (leaf, default x=7): none, x:3, x:$v, x:2 y:[p,q], x:-4, x:null; of Query.targ (composite, added by this check as `extend type Query { targ(x: Int = 6): T }`, default x=6): none, x:3, x:$v; variable modes for $v: given 2, variable default 4, absent, null",
+		"grammar":             "ordered selection sets over Query{str,z:str,arg[6 argument forms],z:arg,t,targ[3 argument forms],z:targ,node,u,rep,ent,__typename,__schema,__type(name:\"T\")} __Schema{__typename,queryType} __Type{name} Ent{score[none,x:3,x:$v],z:score[none,x:3],related[none,x:3],z:related} (Ent is an interface added by this check with two implementors Usr and Grp whose fields take an argument, so one operation selects the same interface field several times with different arguments and sub-selections, in both orders, against custom functions that cross) Rep{old,rows,newFoo,new_foo} Row{id} (Rep.old is bound to the Go field of Rep.rows by @goField(name:) and is declared before it, Rep.new_foo normalises to the Go field of Rep.newFoo: one ComplexityRoot member per pair, assignments are per member and the oracle is asked under every schema name) Mutation{m1,m3} T{id,z:id,name,kid,peer,u,__typename} S{id,peer} Node{id,__typename} Named{name} Deep{peer} U{__typename}; inline fragments without / with type condition in {T,S,Node,Named,Deep,U} (where the types overlap); named fragment definition+spread on the same conditions and on Query; re-use of any fragment of the document; argument forms of Query.arg (leaf, default x=7): none, x:3, x:$v, x:2 y:[p,q], x:-4, x:null; of Query.targ (composite, added by this check as `extend type Query { targ(x: Int = 6): T }`, default x=6): none, x:3, x:$v; variable modes for $v: given 2, variable default 4, absent, null",
 		"assignments":         "custom functions on <= 2 of the Object.field pairs the operation touches (for interface selections: every implementing object), each from {const 0, 1, 5, -3, maxInt, maxInt-1, child*2 saturating, child+x+10*len(y) (= child on fields without arguments)}; plus one assignment per operation putting maxInt on every field the operation does not touch",
 		"limits":              "core {0, 1, c-1, c, c+1, maxInt} for every (operation, assignment) that gets the gate (c = reference complexity); the full boundary grid {minInt, minInt+1, -maxInt, -2, -1, 0, 1, c-1, c, c+1, maxInt-1, maxInt} (de-duplicated) for the first assignment reaching each distinct complexity value of each operation - each grid limit through FixedComplexityLimit on a fresh executor, and the grid as one history through a long-lived executor with the per-request ComplexityLimit{Func} (limit from a header). The assignments' constants put c on the boundary grid {0, 1, 2, 5, maxInt-1, maxInt (also as saturated sums)}",
 		"executor_gate":       fmt.Sprintf("every limit x every assignment for operations with <= %d nodes (layout single-file) / <= %d nodes (layout follow-schema); for larger operations every limit x the first assignment reaching each distinct reference value", plans[0].fullGate, plans[1].fullGate),
 		"http":                fmt.Sprintf("operations with <= %d nodes, no custom function, limits {c-1, c} through handler.Server + transport.POST (httptest recorder)", plans[0].httpMax),
+		"requests_in_flight":  "two requests of the variable family (same query text; v=2 with v=9, and - for operations within the full-gate size - v=9 with v absent) running concurrently on ONE executor with FixedComplexityLimit(min of their reference values) and an LRU document cache, for every (operation using $v, assignment consisting only of custom functions that read the argument: child+x+10*len(y) on one or two of the fields with arguments). HAND-ROLLED cooperative handshake, not the vrt scheduler: a request runs until its next custom complexity function call or its end, and EVERY order of the two requests' segments is enumerated by depth-first search (exhaustive over call orders; preemption only at custom complexity function calls). Oracle: each request is admitted/rejected and executed exactly as alone on a fresh server.",
+		"order_independence":  "differential oracle without the reference: Calculate(operation) == Calculate(operation with every selection set reversed), for every operation under the assignments with <= 1 deviating field",
 		"context_faults":      "fault enumeration over where the request context becomes done: cancelled before CreateOperationContext, expired deadline, and cancelled inside the k-th custom complexity function call for EVERY k of the walk (k = 1..number of calls measured on a live walk). For every operation: (a) the assignment putting const 1 on every Object.field the operation touches (every field node of the walk, each implementor for interface selections, is a call position), (b) no custom function (the two already-done contexts); for operations within the full-gate size additionally every single-field assignment. Per placement: complexity.Calculate(ctx) and the executor with FixedComplexityLimit at limits {c-1, c}; plus POST through handler.Server with an already cancelled / expired request context, no custom function, limits {c-1, c}. Stub resolvers never look at ctx.",
 		"histories":           "request sequences through ONE long-lived executor with an LRU query-document cache and one extension instance (fresh per history), each request judged by the single-request oracle: (a) variable family - operations using $v with header ($v: Int): variants v=2, v=9, absent, null share the query text; for every ordered pair the triple a>b>a at limit min(ca,cb) and the pair a>b at max(ca,cb), FixedComplexityLimit, for the assignments where the variants' reference values can differ (child+x+10*len(y) on Query.arg and/or Query.targ; for operations within the full-gate size also combined with any one other deviating field) and for no custom function; (b) limit family - every (operation, assignment) that gets the executor gate: the same request at per-request limits c > c-1 > c through ComplexityLimit{Func} (limit taken from a request header); (c) operationName family - operations with <= 2 nodes in a document next to a more expensive Decoy operation (both document orders): [Main], [Decoy>Main], [Main>Decoy], [Main>Decoy>Main] at limits {c-1, c, c(Decoy)}, FixedComplexityLimit",
+		"top_size_thinning":   "quick tier only: at the largest operation size z:arg, z:targ, arg(x:-4) and arg(x:null) are left out (they are enumerated at all smaller sizes, and at every size in the thorough tier)",
 		"layouts":             []string{"single-file", "follow-schema"},
 	}
 	c.Assume = []string{
@@ -434,7 +437,10 @@ func probeFiles() map[string]string {
 //     kept through @goField(name:) (declared BEFORE the field it aliases) and a newFoo/new_foo
 //     pair (second name AFTER the first). Rep/Row are bound to a hand-written model (modelgen
 //     would emit the Go field twice).
-const c14ExtraSchema = `extend type Query { targ(x: Int = 6): T  rep: Rep }
+const c14ExtraSchema = `extend type Query { targ(x: Int = 6): T  rep: Rep  ent: Ent }
+interface Ent { score(x: Int = 6): Int  related(x: Int = 6): [Row!]! }
+type Usr implements Ent { score(x: Int = 6): Int @goField(forceResolver: true)  related(x: Int = 6): [Row!]! @goField(forceResolver: true) }
+type Grp implements Ent { score(x: Int = 6): Int @goField(forceResolver: true)  related(x: Int = 6): [Row!]! @goField(forceResolver: true) }
 type Row { id: ID! }
 type Rep {
   old: [Row!]! @goField(name: "rows")
